@@ -61,6 +61,40 @@ static char *ser(json_object *o)
 	return strdup(buf);
 }
 static const char *DOC = "{\"a\":[1,2,{\"b\":\"xxxxxxxxxxxxxxxxxxxxxxxxxxxxxxxxxxxxxxxxxxxxx\"}],\"c\":1.5,\"d\":1,\"e\":2,\"f\":3,\"g\":4,\"h\":5,\"i\":6,\"j\":7,\"k\":8,\"l\":9,\"m\":10}";
+/* history mode: after the fixed set-up, a pseudo-random prefix of ordinary (fault-free) operations is applied to the
+ * caller-owned objects, so that the operation under fault meets them in states a fresh object never has: tables with
+ * tombstones or already grown, arrays with spare or no capacity, strings already moved to a separate buffer, shrunk,
+ * or emptied.  hist = 0: no prefix. */
+static long hist;
+static void apply_history(void)
+{
+	static const char *vals[] = {"", "s", "sixteen bytes..!", "a string of thirty-one bytes...", "a string of more than thirty-two bytes, in fact a good deal more than that",
+	                             "an even longer string: an even longer string: an even longer string: an even longer string: an even longer string"};
+	if (!hist)
+		return;
+	vh_srand(0xC08 * 1000003ull + (uint64_t)hist);
+	int n = 2 + (int)vh_below(10);
+	for (int i = 0; i < n; i++)
+	{
+		char k[8];
+		snprintf(k, sizeof k, "k%u", vh_below(14));
+		switch (vh_below(9))
+		{
+		case 0: json_object_object_add(pre_obj, k, json_object_new_int(100 + i)); break;
+		case 1: json_object_object_del(pre_obj, k); break;
+		case 2: json_object_array_add(pre_arr, json_object_new_int(i)); break;
+		case 3:
+			if (json_object_array_length(pre_arr) > 0)
+				json_object_array_del_idx(pre_arr, vh_below((uint32_t)json_object_array_length(pre_arr)), 1);
+			break;
+		case 4: json_object_array_put_idx(pre_arr, vh_below(12), json_object_new_string("p")); break;
+		case 5: json_object_set_string(pre_str, vals[vh_below(6)]); break;
+		case 6: json_object_set_string(pre_str2, vals[vh_below(6)]); break;
+		case 7: json_object_object_add(pre_doc, k, json_object_new_string(vals[vh_below(6)])); break;
+		default: json_object_object_del(pre_doc, k); break;
+		}
+	}
+}
 static void build_pre(void)
 {
 	pre_obj = json_object_new_object();
@@ -81,6 +115,7 @@ static void build_pre(void)
 	pre_patch = json_tokener_parse("[{\"op\":\"add\",\"path\":\"/new\",\"value\":{\"x\":[1,2,3]}},{\"op\":\"copy\",\"from\":\"/a\",\"path\":\"/a2\"},"
 	                               "{\"op\":\"move\",\"from\":\"/c\",\"path\":\"/c2\"},{\"op\":\"replace\",\"path\":\"/d\",\"value\":\"r\"},"
 	                               "{\"op\":\"test\",\"path\":\"/e\",\"value\":2},{\"op\":\"remove\",\"path\":\"/f\"}]");
+	apply_history();
 	snap_obj = ser(pre_obj);
 	snap_arr = ser(pre_arr);
 	snap_str = ser(pre_str);
@@ -390,9 +425,10 @@ static struct
 	const char *name;
 	workload_fn fn;
 	int variants;
-} W[] = {{"parse_ex", w_parse, 12},   {"tokener_parse", w_parse_simple, 1}, {"construct", w_construct, 10}, {"object_add", w_obj_add, 3},
-         {"array_grow", w_arr, 4},    {"set_string", w_set_string, 6},      {"deep_copy", w_deep_copy, 1},  {"serialize", w_serialize, 13},
-         {"pointer_set", w_pointer_set, 3}, {"pointer_get", w_pointer_get, 2}, {"patch", w_patch, 7}};
+	int uses_pre; /* operates on the caller-owned objects: worth repeating after a history */
+} W[] = {{"parse_ex", w_parse, 12, 0},   {"tokener_parse", w_parse_simple, 1, 0}, {"construct", w_construct, 10, 0}, {"object_add", w_obj_add, 3, 1},
+         {"array_grow", w_arr, 4, 1},    {"set_string", w_set_string, 6, 1},      {"deep_copy", w_deep_copy, 1, 1},  {"serialize", w_serialize, 13, 1},
+         {"pointer_set", w_pointer_set, 3, 1}, {"pointer_get", w_pointer_get, 2, 1}, {"patch", w_patch, 7, 1}};
 #define NW (int)(sizeof W / sizeof *W)
 
 static int unchanged(int mask)
@@ -416,11 +452,14 @@ static int unchanged(int mask)
 	return ok;
 }
 
-static int sweep(int wfrom, int wto, int pairs)
+static int sweep(int wfrom, int wto, int pairs, long hfrom, long hto)
 {
+	for (hist = hfrom; hist < hto; hist++)
 	for (int w = wfrom; w < wto && w < NW; w++)
 		for (int v = 0; v < W[w].variants; v++)
 		{
+			if (hist && !W[w].uses_pre)
+				continue;
 			ev_begin("new");
 			ev_end();
 			/* fault-free run: count the allocation requests, keep the result */
@@ -435,6 +474,7 @@ static int sweep(int wfrom, int wto, int pairs)
 			ev_begin("clean");
 			ev_str("w", W[w].name);
 			ev_int("v", v);
+			ev_int("h", (int)hist);
 			ev_int("n", N);
 			ev_int("status", clean.status);
 			ev_bool("pre_ok", clean_ok);
@@ -465,6 +505,7 @@ static int sweep(int wfrom, int wto, int pairs)
 					ev_begin("fault");
 					ev_str("w", W[w].name);
 					ev_int("v", v);
+					ev_int("h", (int)hist);
 					ev_int("k", k);
 					ev_int("k2", rr ? second : -1);
 					ev_int("n", N);
@@ -485,6 +526,6 @@ static int sweep(int wfrom, int wto, int pairs)
 int c08_main(int argc, char **argv)
 {
 	if (argc >= 4 && !strcmp(argv[0], "sweep"))
-		return sweep(atoi(argv[1]), atoi(argv[2]), atoi(argv[3]));
+		return sweep(atoi(argv[1]), atoi(argv[2]), atoi(argv[3]), argc >= 6 ? atol(argv[4]) : 0, argc >= 6 ? atol(argv[5]) : 1);
 	return 2;
 }
